@@ -180,6 +180,17 @@ impl MemoryManager {
     }
 }
 
+impl Drop for MemoryManager {
+    fn drop(&mut self) {
+        // Whatever is still waiting for an epoch can go now: nobody is left to read it
+        if let Ok(waiting) = self.wait_to_free.get_mut() {
+            for val in waiting.drain(..) {
+                val.delete();
+            }
+        }
+    }
+}
+
 impl Drop for MemoryManagerInner {
     fn drop(&mut self) {
         for val in self.tofree.drain(..) {
